@@ -107,3 +107,10 @@ func TestStuckAndPanic(t *testing.T) {
 	})
 	t.Logf("ticker: residue=%v deadlock=%q", res.Residue, res.Deadlock)
 }
+
+func TestGoidOffset(t *testing.T) {
+	if simrt.GoidOffset() == 0 {
+		t.Fatal("goid offset not found: slow path would be used")
+	}
+	t.Logf("goid offset = %d", simrt.GoidOffset())
+}
